@@ -247,24 +247,25 @@ def _crc(s):
 
 
 def url_inputs(case):
-    """[(host, url string, oracle applies, host spelled with a trailing dot)] of an 'h' case"""
+    """[(host, url string, oracle applies, host spelled with a trailing dot)] of an 'h' case.  Every host: the
+    six base forms and one further good shape (by rotation).  Corpus hosts, and the first three hosts of an
+    exception / wildcard group (the rule as a host, with one and with two more labels): every shape."""
     out = []
-    every = case.get("tag") in ("corpus", "exc", "wild", "special")
+    tag = case.get("tag")
     for i, h in enumerate(case["hosts"]):
         for j, f in enumerate(forms(h)):
             out.append((h, f, True, j == 2))
-        if every:
+        if tag in ("corpus", "special") or (tag in ("exc", "wild") and i < 3):
             for sh in GOOD_SHAPES:
                 out.append((h, sh % h, True, "%s." in sh))
             for sh in MODEL_ONLY_SHAPES:
                 out.append((h, sh % h, False, False))
         else:
             k = _crc(h)
-            for j in (0, 1):
-                sh = GOOD_SHAPES[(k + j * 7) % len(GOOD_SHAPES)]
-                out.append((h, sh % h, True, "%s." in sh))
+            sh = GOOD_SHAPES[k % len(GOOD_SHAPES)]
+            out.append((h, sh % h, True, "%s." in sh))
             if i == 0:
-                out.append((h, MODEL_ONLY_SHAPES[k % len(MODEL_ONLY_SHAPES)] % h, False, False))
+                out.append((h, MODEL_ONLY_SHAPES[(k // 7) % len(MODEL_ONLY_SHAPES)] % h, False, False))
     return out
 
 
